@@ -23,7 +23,7 @@ SANITIZE_SHARDS = {"quick": 1, "thorough": 1}
 EXHAUSTIVE = {"quick": False, "thorough": False}
 REQUIRED_CLASSES = {t: ["border_on_reversal", "border_before_reversal", "border_after_reversal",
                         "border_in_plateau", "chunk_len_1", "ge3_chunks", "signal_len_1", "signal_len_2",
-                        "all_compositions_enumerated", "plateau_reversal", "extreme_revisited"]
+                        "all_compositions_enumerated", "plateau_reversal", "extreme_revisited", "chunks:other_containers_and_dtypes"]
                     for t in ("quick", "thorough")}
 REQUIRED_MONITORS = ["chunked==whole:cycle_values", "chunked==whole:cycle_indices", "chunked==whole:residuals",
                      "chunked==whole:residual_index", "recorder.chunks", "chunk_local_index",
@@ -34,7 +34,7 @@ RULE = ("seeded generators (small-alphabet integers with ties/plateaus, floats, 
         "borders at r-1, r, r+1 of every reference reversal r and inside every plateau) x {ThreePoint, FourPoint, "
         "FKM}. A case is one signal with its partition set; it is non-trivial when the whole-signal run of at "
         "least one detector closed a cycle or the signal has a reversal; distinct = distinct (signal, partition set).")
-ASSUMPTIONS = ["chunks are non-empty (the property's quantifier; process([]) is outside it, see DESIGN 4.2)",
+ASSUMPTIONS = ["a third of the chunk schedules hands the chunks over as list / tuple / int64 / float32 / read-only / non-contiguous / Series with a non-default index (same numbers; int64 and float32 only where exact)", "chunks are non-empty (the property's quantifier; process([]) is outside it, see DESIGN 4.2)",
                "numpy/pandas internals trusted; sanitizers cover only rainflow_ext",
                "reference reversal positions (pv/ref/rainflow.py) are used to aim borders and classify, not to judge"]
 
@@ -53,6 +53,7 @@ def setup(ctx):
 def finish(ctx):
     ctx.extra["reach"] = reach.report()
     ctx.extra["kernel_calls"] = rf.kernel_calls()
+    ctx.extra["chunk_representations"] = rf.representations_seen()
 
 
 def _targeted_cuts(sig):
@@ -200,8 +201,11 @@ def run_case(case, ctx):
         for cuts in parts:
             chunks = G.split(sig_arr, cuts)
             ctx.extra["triples"] = ctx.extra.get("triples", 0) + 1
-            got = rf.run(det, chunks)
-            info = {"detector": det, "cuts": list(cuts)}
+            vary = (len(cuts) + len(sig)) % 3 == 0          # a third of the schedules: every chunk in another container / dtype
+            if vary:
+                ctx.tag("chunks:other_containers_and_dtypes")
+            got = rf.run(det, chunks, vary=vary)
+            info = {"detector": det, "cuts": list(cuts), "chunk_representations_varied": vary}
             ctx.check("chunked==whole:cycle_values", rf.same(got.vf, whole.vf) and rf.same(got.vt, whole.vt),
                       observed={"from": got.vf, "to": got.vt}, expected={"from": whole.vf, "to": whole.vt}, detail=info)
             ctx.check("chunked==whole:residuals", rf.same(got.res, whole.res), observed=got.res, expected=whole.res,
